@@ -258,3 +258,16 @@ def replay(ctx, rep):
     print('pre_parse ->', json.dumps(r)[:300])
     print('REPRODUCED' if bad else 'not reproduced')
     return 1 if bad else 0
+
+
+def witness_fails(ctx, finding):
+    w = finding['witness']
+    n = w.get('indent_size', 2)
+    r = C11.real_pre_parse(w['text'], n)
+    tr = None
+    try:
+        tr = Driver().call({'op': 'pptrace', 'n': n, 'text': w['text']}).get('trace')
+    except Exception:
+        pass
+    v = depth_violation(w['text'], n, r.get('out', ''), tr)
+    return v is not None and v[1] == finding['id']
